@@ -108,6 +108,9 @@ func (c *FnCtx) applyContract(fr *frame, st *State, con *Contract, ca callArgs, 
 	if con.External || con.Trusted {
 		c.eng.noteAssumed(con)
 	}
+	if con.SchedPoint {
+		c.schedPoint(st)
+	}
 	// frame
 	for _, m := range con.Modifies {
 		c.applyModifies(st, pre, mk(pre, nil), m)
@@ -149,6 +152,42 @@ func (c *FnCtx) applyContract(fr *frame, st *State, con *Contract, ca callArgs, 
 		c.assume(st, post.boolOf(en.Expr))
 	}
 	return packResults(rt, vals)
+}
+
+// schedPoint: every guarded field of every monitor type of the package under
+// verification becomes arbitrary (another goroutine may have held the lock).
+func (c *FnCtx) schedPoint(st *State) {
+	if c.fn.Pkg == nil {
+		return
+	}
+	pkg := c.fn.Pkg.Pkg
+	for _, m := range monitors[pkg.Path()] {
+		obj := pkg.Scope().Lookup(m[0])
+		if obj == nil {
+			bail("monitor: no type %s in %s", m[0], pkg.Path())
+		}
+		stt, ok := obj.Type().Underlying().(*types.Struct)
+		if !ok {
+			bail("monitor: %s is not a struct", m[0])
+		}
+		found := false
+		for i := 0; i < stt.NumFields(); i++ {
+			if stt.Field(i).Name() != m[1] {
+				continue
+			}
+			found = true
+			ft := stt.Field(i).Type()
+			switch ft.Underlying().(type) {
+			case *types.Struct, *types.Array:
+				bail("monitor: guarded aggregate field %s.%s", m[0], m[1])
+			}
+			c.heapHavocKey(st, heapKey(obj.Type(), []int{i}), sortOf(ft))
+		}
+		if !found {
+			bail("monitor: no field %s in %s", m[1], m[0])
+		}
+	}
+	c.note("scheduling points (Lock/Unlock/Wait) havoc the guarded fields declared by monitor clauses of %s; other fields are assumed stable", pkg.Path())
 }
 
 func lastName(s string) string {
@@ -394,6 +433,9 @@ func (c *FnCtx) evalClause(fr *frame, st *State, cl *Clause, li *loopInfo) strin
 		preds = fr.con.Preds
 	}
 	ec := &evalCtx{c: c, st: st, old: c.entry, pkg: pkg, preds: preds, names: c.resolver(fr, li, nil)}
+	if li != nil && fr.loopEntrySt != nil {
+		ec.loopEntry = fr.loopEntrySt[li]
+	}
 	ec.entryName = func(name string) (Val, bool) {
 		for _, p := range fr.fn.Params {
 			if p.Name() == name {
@@ -454,6 +496,15 @@ func (eng *Engine) verifyFunction(fn *ssa.Function, con *Contract, bounded int) 
 				c.nonNil[v.Ref] = true
 			} else {
 				c.assumeRaw(sx(">=", v.Ref, "0"))
+			}
+		}
+		if bounded > 0 {
+			// bounded stand-in: small inputs only (stated bound: boundedQ elements)
+			switch v.K {
+			case kSlice:
+				c.assumeRaw(sx("<=", v.Len, num(boundedQ)))
+			case kStr:
+				c.assumeRaw(sx("<=", sx("slen", v.S), num(boundedQ)))
 			}
 		}
 		if v.K == kSlice {
